@@ -64,7 +64,8 @@ pub fn gen_metric(r: &mut Rng, typ: PType, label_names: &[String]) -> PMetric {
         PType::Gauge => m.gauge = Some(gen_float(r)),
         PType::Untyped => m.untyped = Some(gen_float(r)),
         PType::Histogram => {
-            let nb = r.below(7) as usize;
+            // (sizes sometimes cross 16 / 32 / 64: implementations may treat long lists differently)
+            let nb = if r.chance(3) { *r.pick(&[17usize, 33, 65]) } else { r.below(7) as usize };
             let mut cc = 0u64;
             let mut buckets = vec![];
             let explicit_inf = nb > 0 && r.chance(25);
@@ -77,7 +78,7 @@ pub fn gen_metric(r: &mut Rng, typ: PType, label_names: &[String]) -> PMetric {
             m.hist = Some(PHist { count, sum: gen_float(r), buckets });
         }
         PType::Summary => {
-            let nq = r.below(5) as usize;
+            let nq = if r.chance(3) { *r.pick(&[17usize, 33]) } else { r.below(5) as usize };
             m.summary = Some(PSummary { count: r.below(1 << 52), sum: gen_float(r), quantiles: (0..nq).map(|_| (*r.pick(&[0.5, 0.9, 0.99, 0.0, 1.0, f64::NAN]), gen_float(r))).collect() });
         }
     }
@@ -85,13 +86,13 @@ pub fn gen_metric(r: &mut Rng, typ: PType, label_names: &[String]) -> PMetric {
 }
 
 pub fn gen_families(r: &mut Rng, types: &[PType]) -> Vec<PFamily> {
-    let nf = 1 + r.below(5) as usize;
+    let nf = if r.chance(1) { *r.pick(&[17usize, 33, 130]) } else { 1 + r.below(5) as usize };
     let names = ["m", "req_total", "a:b", "_x", "h9", ":c", "M_n"];
     let lnames = ["l", "a_1", "_b", "zz", "k9", "L"];
     (0..nf)
         .map(|i| {
             let typ = *r.pick(types);
-            let nl = r.below(7) as usize;
+            let nl = if nf > 5 { r.below(3) as usize } else { r.below(7) as usize };
             let mut ln: Vec<String> = vec![];
             for _ in 0..nl {
                 let n = r.pick(&lnames).to_string();
@@ -99,7 +100,7 @@ pub fn gen_families(r: &mut Rng, types: &[PType]) -> Vec<PFamily> {
                     ln.push(n);
                 }
             }
-            let nm = 1 + r.below(4) as usize;
+            let nm = if nf <= 5 && r.chance(1) { *r.pick(&[17usize, 65, 130]) } else { 1 + r.below(4) as usize };
             let mut help = gen_string(r);
             while help.starts_with(' ') || help.starts_with('\t') {
                 help.remove(0);
@@ -120,6 +121,11 @@ pub struct EncPlan {
     pub writer: WriterPlan,
     pub existing: String,
     pub seed: u64,
+    /// C13: the family objects were already encoded once in an earlier, smaller state (first sample
+    /// only, empty help, one label value shorter) and then grown in place: nothing remembered from the
+    /// first serialisation (sizes, buffers) may leak into the second
+    #[serde(default)]
+    pub reuse: bool,
 }
 #[derive(Serialize, Deserialize, Clone, Debug)]
 pub struct Warmup {
@@ -153,7 +159,8 @@ fn gen_enc_plan(seed: u64, types: &[PType]) -> EncPlan {
         let w = if r.chance(50) { WriterPlan::clean() } else { WriterPlan { short_pct: 20, eintr_pct: 10, fail_at: Some(r.below(200)), seed: r.next() } };
         warmup.push(Warmup { families: fams, writer: w });
     }
-    EncPlan { warmup, families, writer, existing: r.pick(&["", "prefix\n", "é", "# junk"]).to_string(), seed }
+    let reuse = r.chance(20);
+    EncPlan { warmup, families, writer, existing: r.pick(&["", "prefix\n", "é", "# junk"]).to_string(), seed, reuse }
 }
 
 fn run_warmup(plan: &EncPlan, text: bool, out: &mut RunOut, prop: &str) {
@@ -274,7 +281,7 @@ pub fn families_equal(a: &[PFamily], b: &[PFamily], exact_nan: bool) -> std::res
 
 fn plan_signature(p: &EncPlan) -> u64 {
     let mut fp = crate::rng::Fp::default();
-    fp.str(&serde_json::to_string(&(&p.families, &p.writer.fail_at, p.writer.short_pct, p.writer.eintr_pct)).unwrap());
+    fp.str(&serde_json::to_string(&(&p.families, &p.writer.fail_at, p.writer.short_pct, p.writer.eintr_pct, p.reuse)).unwrap());
     fp.0
 }
 
@@ -388,7 +395,7 @@ impl Scenario for C04 {
     }
     fn runs(&self, tier: Tier) -> u64 {
         match tier {
-            Tier::Quick => 200_000,
+            Tier::Quick => 120_000,
             Tier::Thorough => 10_000_000,
         }
     }
@@ -490,9 +497,43 @@ fn execute_c13(plan: &EncPlan) -> RunOut {
     out.nontrivial = plan.families.iter().map(|f| f.metrics.len()).sum::<usize>() >= 2;
     out.signature = plan_signature(plan);
     out.faulty_cfg = plan.writer != WriterPlan::clean();
-    let mfs: Vec<proto::MetricFamily> = plan.families.iter().map(compat::to_proto).collect();
-    let given = compat::families_of(&mfs);
     let enc = ProtobufEncoder::new();
+    let mfs: Vec<proto::MetricFamily> = if plan.reuse {
+        // earlier state of the same objects: first sample only (one label value cut short), no help
+        let small: Vec<PFamily> = plan
+            .families
+            .iter()
+            .map(|f| {
+                let mut s = f.clone();
+                s.metrics.truncate(1);
+                s.help = Some(String::new());
+                if let Some(l) = s.metrics.first_mut().and_then(|m| m.labels.first_mut()) {
+                    l.1 = l.1.chars().take(1).collect();
+                }
+                s
+            })
+            .collect();
+        let mut objs: Vec<proto::MetricFamily> = small.iter().map(compat::to_proto).collect();
+        let _ = catch(|| enc.encode(&objs, &mut Vec::new()));
+        for (o, full) in objs.iter_mut().zip(plan.families.iter()) {
+            let fresh = compat::to_proto(full);
+            // keep the already-serialised first sample object (a clone carries whatever it cached),
+            // restore its label value, append the remaining samples, set the help text
+            let mut ms = o.get_metric().to_vec();
+            if let (Some(m0), Some(f0)) = (ms.first_mut(), fresh.get_metric().first()) {
+                m0.set_label(f0.get_label().to_vec());
+            }
+            ms.extend(fresh.get_metric().iter().skip(1).cloned());
+            o.set_metric(ms);
+            if let Some(h) = &full.help {
+                o.set_help(h.clone());
+            }
+        }
+        objs
+    } else {
+        plan.families.iter().map(compat::to_proto).collect()
+    };
+    let given = compat::families_of(&mfs);
     run_warmup(plan, false, &mut out, "C13");
     let v = |c: &str, m: String| Violation::new(&format!("C13/{}", c), format!("C13/{}", c), m);
     let first_bad = given.iter().position(|f| f.name.as_deref().unwrap_or("").is_empty() || f.metrics.is_empty());
@@ -752,11 +793,13 @@ fn execute_c17(plan: &ApiPlan) -> RunOut {
                     CKind::IntGauge => IntGauge::with_opts(opts.clone()).is_ok() & Gauge::with_opts(opts.clone()).is_ok(),
                     CKind::Histogram => Histogram::with_opts(HistogramOpts::from(opts.clone())).is_ok(),
                     CKind::CounterVec => CounterVec::new(opts.clone(), &names).is_ok() & IntGaugeVec::new(opts.clone(), &names).is_ok(),
-                    CKind::HistogramVec => HistogramVec::new(HistogramOpts::from(opts.clone()), &names).is_ok(),
+                    // (a histogram vector checks the reserved name `le` when its first child is built)
+                    CKind::HistogramVec => HistogramVec::new(HistogramOpts::from(opts.clone()), &names).and_then(|v| v.get_metric_with_label_values(&names.iter().map(|_| "x").collect::<Vec<_>>()).map(|_| ())).is_ok(),
                     CKind::Desc => prometheus::core::Desc::new(cr.name.clone(), cr.help.clone(), cr.vars.clone(), consts.clone()).is_ok(),
                     CKind::Pulling => PullingGauge::new(cr.name.clone(), cr.help.clone(), Box::new(|| 0.0)).is_ok(),
                 });
-                guard(&what, false, r);
+                // the statement's naming rules (C09) name these arguments invalid: Err demanded, not only "no panic"
+                guard(&what, !crate::scen::descs::model_accepts(cr), r);
                 if cr.path == 2 {
                     // options that carry variable labels handed to a scalar constructor: any answer but a panic
                     let o = opts.clone().variable_label("vl");
